@@ -3,7 +3,8 @@
 must stay silent.  harmless_eval.py <name> <dir with patch.diff, desc.txt>"""
 import sys, os, json, subprocess, shutil, time
 def sh(cmd, cwd=None, timeout=3000):
-    p = subprocess.run(cmd, shell=True, cwd=cwd, stdout=subprocess.PIPE, stderr=subprocess.STDOUT, timeout=timeout)
+    # evidence written while a seeded change is applied must not overwrite the committed evidence
+    p = subprocess.run(cmd, shell=True, cwd=cwd, env=dict(os.environ, VERIF_EVIDENCE_DIR='/tmp/seed_evidence'), stdout=subprocess.PIPE, stderr=subprocess.STDOUT, timeout=timeout)
     return p.returncode, p.stdout.decode('utf-8', 'replace')
 name, src = sys.argv[1], sys.argv[2]
 patch = os.path.abspath(os.path.join(src, 'patch.diff'))
